@@ -14,6 +14,9 @@ from .common import quiet, all_close, gen_coords, gen_values, REPO
 from .common import guarded
 
 INFO = dict(
+    # the ownership table is decided on the implementation itself (np.shares_memory on every stored / returned array,
+    # differential runs under caller mutation): no request to the Lean driver is needed for the second tie
+    fallback_without_model_requests=True,
     rule='seeded data sets x settings x operation sequences: construct, read, caller mutates coordinate / value '
          'arrays, caller mutates returned lag edges, clone, pickle round trip, modify clone; seeded k-means binning, '
          'pair sampling and jackknife subsets repeated in-process and in two fresh subprocesses; distinct = distinct '
